@@ -124,8 +124,8 @@ var c07Catalogue = []construct{
 	{Name: "three-cycle-recursion", Decl: "func zqA3(n uint64) uint64 {\n\tif n == 0 {\n\t\treturn 0\n\t}\n\treturn zqB3(n - 1)\n}", Broken: "zqA3", Support: []string{"func zqB3(n uint64) uint64 {\n\tif n == 0 {\n\t\treturn 1\n\t}\n\treturn zqC3(n - 1)\n}", "func zqC3(n uint64) uint64 {\n\tif n == 0 {\n\t\treturn 2\n\t}\n\treturn zqA3(n - 1)\n}"}},
 	{Name: "mutually-referring-structs", Decl: "type zqNodeA struct {\n\tnext *zqNodeB\n\tkids []zqNodeB\n}", Broken: "zqNodeA", Support: []string{"type zqNodeB struct {\n\tback *zqNodeA\n\tm    map[uint64]zqNodeA\n}"}},
 	{Name: "method-and-function-cycle", Decl: "func (t *zqT) zqwalk(n uint64) uint64 {\n\tif n == 0 {\n\t\treturn t.a\n\t}\n\treturn zqWalkT(t, n-1)\n}", Broken: "zqT.zqwalk", Support: []string{supT, "func zqWalkT(t *zqT, n uint64) uint64 {\n\treturn t.zqwalk(n)\n}"}},
-	{Name: "early-return-else-if", Stmt: "var zqx uint64 = 1\nif zqx > 5 {\n\treturn\n} else if zqx == 1 {\n\tzqx = 7\n}\nzqx += 2\n_ = zqx"},
-	{Name: "early-return-else-if-else", Stmt: "var zqx uint64 = 1\nif zqx > 5 {\n\treturn\n} else if zqx == 1 {\n\tzqx = 7\n} else {\n\tzqx = 8\n}\nzqx += 2\n_ = zqx"},
+	{Name: "early-return-else-if", Decl: "func zqERE() {\n\tvar zqx uint64 = 1\n\tif zqx > 5 {\n\t\treturn\n\t} else if zqx == 1 {\n\t\tzqx = 7\n\t}\n\tzqx += 2\n\t_ = zqx\n}", Broken: "zqERE"},
+	{Name: "early-return-else-if-else", Decl: "func zqEREE() {\n\tvar zqx uint64 = 1\n\tif zqx > 5 {\n\t\treturn\n\t} else if zqx == 1 {\n\t\tzqx = 7\n\t} else {\n\t\tzqx = 8\n\t}\n\tzqx += 2\n\t_ = zqx\n}", Broken: "zqEREE"},
 	{Name: "loop-break-else-if", Stmt: "var zqx uint64 = 1\nfor {\n\tif zqx > 3 {\n\t\tbreak\n\t} else if zqx == 1 {\n\t\tzqx = 7\n\t}\n\tzqx += 2\n}"},
 	{Name: "iota-constant-block", Decl: "const (\n\tzqA = iota\n\tzqB\n)", Broken: "zqA"},
 	{Name: "grouped-var-block", Decl: "var (\n\tzqV1 uint64 = 1\n\tzqV2 uint64 = 2\n)", Broken: "zqV1"},
@@ -174,7 +174,56 @@ var c07Catalogue = []construct{
 	{Name: "shadowed-builtin-new", NoHost: true, Decl: "func new(x bool) bool {\n\treturn x\n}", Broken: "new", Support: []string{"func zqUse() bool {\n\treturn new(true)\n}"}},
 	{Name: "shadowed-builtin-panic", NoHost: true, Decl: "func panic(x bool) bool {\n\treturn x\n}", Broken: "panic", Support: []string{"func zqUse() bool {\n\treturn panic(true)\n}"}},
 	{Name: "shadowed-builtin-uint64", NoHost: true, Decl: "func uint64(x bool) bool {\n\treturn x\n}", Broken: "uint64", Support: []string{"func zqUse() bool {\n\treturn uint64(true)\n}"}},
-	{Name: "shadowed-builtin-append-local", Stmt: "append := func(x bool) bool {\n\treturn x\n}\n_ = append(true)"},
+	{Name: "shadowed-builtin-append-local", Decl: "func zqShadowAppend() bool {\n\tappend := func(x bool) bool {\n\t\treturn x\n\t}\n\treturn append(true)\n}", Broken: "zqShadowAppend"},
+	// every remaining statement / expression node kind of go/ast (one construct per kind)
+	{Name: "empty-statement", Stmt: "var zqx uint64 = 1\n;\n_ = zqx"},
+	{Name: "empty-statement-in-loop-body", Stmt: "var zqx uint64 = 0\nfor zqx < 1 {\n\t;\n\tzqx = zqx + 1\n}"},
+	{Name: "empty-statement-only-loop-body", Stmt: "zqd := new(bool)\n*zqd = true\nfor !*zqd {\n\t;\n}"},
+	{Name: "empty-statement-in-if", Stmt: "var zqx uint64 = 1\nif zqx == 1 {\n\t;\n}"},
+	{Name: "labelled-empty-statement", Stmt: "goto zqL4\nzqL4:\n\t;"},
+	{Name: "bare-block", Stmt: "var zqx uint64 = 1\n{\n\tzqy := zqx + 1\n\t_ = zqy\n}"},
+	{Name: "empty-bare-block", Stmt: "{\n}"},
+	{Name: "local-const-declaration", Stmt: "const zqc uint64 = 3\n_ = zqc"},
+	{Name: "local-type-declaration", Stmt: "type zqLocal struct {\n\ta uint64\n}\n_ = zqLocal{a: 1}"},
+	{Name: "local-multi-name-var", Stmt: "var zqa, zqb uint64\n_ = zqa\n_ = zqb"},
+	{Name: "local-multi-name-var-with-values", Stmt: "var zqa, zqb uint64 = 1, 2\n_ = zqa\n_ = zqb"},
+	{Name: "local-var-group", Stmt: "var (\n\tzqa uint64\n\tzqb bool\n)\n_ = zqa\n_ = zqb"},
+	{Name: "local-var-from-call-pair", Stmt: "var zqa, zqb = zqPair()\n_ = zqa\n_ = zqb", Support: []string{"func zqPair() (uint64, bool) {\n\treturn 1, true\n}"}},
+	{Name: "unary-plus", Stmt: "var zqa uint64 = 1\n_ = +zqa"},
+	{Name: "imaginary-literal", Stmt: "zqc := 2i\n_ = zqc"},
+	{Name: "raw-string-literal", Stmt: "zqs := `a\"b`\n_ = zqs"},
+	{Name: "hex-octal-binary-literals", Stmt: "var zqa uint64 = 0x10 + 0o7 + 0b11 + 1_000\n_ = zqa"},
+	{Name: "char-escape-literal", Stmt: "var zqb byte = '\\n'\n_ = zqb"},
+	{Name: "generic-two-parameter-instantiation", Stmt: "_ = zqGen2[uint64, bool](1, true)", Support: []string{"func zqGen2[T any, U any](x T, y U) T {\n\treturn x\n}"}},
+	{Name: "directional-channel-types", Decl: "func zqChans(in <-chan uint64, out chan<- uint64) {\n}", Broken: "zqChans"},
+	{Name: "receive-from-nil-channel-in-expression", Stmt: "var zqc chan uint64\nif false {\n\t_ = <-zqc + 1\n}"},
+	{Name: "range-over-channel", Stmt: "zqc := make(chan uint64)\nclose(zqc)\nfor zqv := range zqc {\n\t_ = zqv\n}"},
+	{Name: "for-with-empty-clauses", Stmt: "var zqx uint64 = 0\nfor ; ; {\n\tzqx++\n\tif zqx > 1 {\n\t\tbreak\n\t}\n}"},
+	{Name: "for-with-only-post", Stmt: "var zqx uint64 = 0\nfor ; ; zqx++ {\n\tif zqx > 1 {\n\t\tbreak\n\t}\n}"},
+	{Name: "for-with-only-init", Stmt: "for zqi := uint64(0); ; {\n\tif zqi == 0 {\n\t\tbreak\n\t}\n}"},
+	{Name: "func-type-conversion", Stmt: "zqf := zqFT(zqId)\n_ = zqf(1)", Support: []string{supId, "type zqFT func(uint64) uint64"}},
+	{Name: "func-typed-variable-nil-compare", Stmt: "var zqf func(uint64) uint64\nif zqf == nil {\n\tzqf = zqId\n}\n_ = zqf(1)", Support: []string{supId}},
+	{Name: "interface-type-literal-variable", Stmt: "var zqi interface {\n\tM() uint64\n}\n_ = zqi"},
+	{Name: "map-of-func-values", Stmt: "zqm := make(map[uint64]func() uint64)\n_ = zqm"},
+	{Name: "struct-literal-of-pointer-elements", Stmt: "zqs := []*zqT{{a: 1}}\n_ = zqs", Support: []string{supT}},
+	{Name: "nested-composite-literal-elided-types", Stmt: "zqs := [][]uint64{{1}, {2, 3}}\n_ = zqs"},
+	{Name: "address-of-composite-in-call", Stmt: "_ = zqTakesT(&zqT{a: 1})", Support: []string{supT, "func zqTakesT(t *zqT) uint64 {\n\treturn t.a\n}"}},
+	{Name: "return-of-multi-value-call", Decl: "func zqFwd() (uint64, bool) {\n\treturn zqPair()\n}", Broken: "zqFwd", Support: []string{"func zqPair() (uint64, bool) {\n\treturn 1, true\n}"}},
+	{Name: "call-with-multi-value-argument", Stmt: "zqTake2(zqPair())", Support: []string{"func zqPair() (uint64, bool) {\n\treturn 1, true\n}", "func zqTake2(a uint64, b bool) {\n}"}},
+	{Name: "blank-parameter", Decl: "func zqBlankParam(_ uint64, b uint64) uint64 {\n\treturn b\n}", Broken: "zqBlankParam"},
+	{Name: "unnamed-parameters", Decl: "func zqUnnamed(uint64, bool) uint64 {\n\treturn 1\n}", Broken: "zqUnnamed"},
+	{Name: "blank-receiver", Decl: "func (_ *zqT) zqblank() uint64 {\n\treturn 1\n}", Broken: "zqT.zqblank", Support: []string{supT}},
+	{Name: "unnamed-receiver", Decl: "func (*zqT) zqanon() uint64 {\n\treturn 1\n}", Broken: "zqT.zqanon", Support: []string{supT}},
+	{Name: "expression-statement-of-builtin", Stmt: "zqs := make([]uint64, 1)\ncopy(zqs, zqs)\nprintln(len(zqs))"},
+	{Name: "recover-call", Stmt: "_ = recover()"},
+	{Name: "string-concatenation-assign", Stmt: "zqs := \"a\"\nzqs += \"b\"\n_ = zqs"},
+	{Name: "bool-op-assign", Stmt: "var zqa uint64 = 6\nzqa &= 3\nzqa |= 8\nzqa ^= 1\n_ = zqa"},
+	{Name: "pointer-to-pointer", Stmt: "zqp := new(*uint64)\n*zqp = new(uint64)\n**zqp = 3\n_ = **zqp"},
+	{Name: "struct-value-method-on-literal", Stmt: "_ = zqT{a: 2}.zqm()", Support: []string{supT, supTm}},
+	{Name: "selector-on-call-result", Stmt: "_ = zqMk().a", Support: []string{supT, "func zqMk() *zqT {\n\treturn &zqT{a: 1}\n}"}},
+	{Name: "index-on-call-result", Stmt: "_ = zqMkS()[0]", Support: []string{"func zqMkS() []uint64 {\n\treturn make([]uint64, 1)\n}"}},
+	{Name: "slice-full-form-of-call-result", Stmt: "_ = zqMkS()[0:1]", Support: []string{"func zqMkS() []uint64 {\n\treturn make([]uint64, 1)\n}"}},
+	{Name: "conversion-to-named-func-result", Stmt: "_ = uint64(zqMk().a) + 1", Support: []string{supT, "func zqMk() *zqT {\n\treturn &zqT{a: 1}\n}"}},
 }
 
 // hostPkg is a generated good package cut into declarations.
